@@ -142,6 +142,10 @@ func Produce(name string, style Style) string {
 		}
 		write(word)
 	}
+	if buf.Len() == 0 && name != "" {
+		// Names without letters or digits (such as '' or _) still need a non-empty identifier.
+		write("empty")
+	}
 	return buf.String()
 }
 
